@@ -11,6 +11,10 @@ def _prepare_import_env():
     # src.args parses sys.argv at import time (hephaestus.py, src.utils import
     # chain is argv-free, but keep argv clean for every module of /repo).
     sys.argv = [sys.argv[0]]
+    # src.utils samples its word pool from the (unseeded) stdlib RNG at import time: seed it so that the
+    # generated family members carry the same identifiers in every run (and in `vcheck replay`)
+    import random
+    random.seed(int(os.environ.get('VERIF_SEED', '0') or 0))
 
 
 def load(pid):
